@@ -673,6 +673,11 @@ func (g *gen) famLists() {
 		seq.Prods = []*Prod{{Terms: []*Term{rref("seq"), rref("item")}}, {Terms: []*Term{rref("item")}}}
 	case 1:
 		seq.Prods = []*Prod{{Terms: []*Term{rref("item"), rref("seq")}}, {}}
+		if g.chance(50) {
+			// right recursion without an empty alternative: every item stays on
+			// the stack until the last one is read
+			seq.Prods = []*Prod{{Terms: []*Term{rref("item"), rref("seq")}}, {Terms: []*Term{rref("item")}}}
+		}
 	case 2:
 		seq.Prods = []*Prod{{Terms: []*Term{rrefc("item", Plus), {Kind: KTok, Name: g.tokN(5).Name, Card: Opt}}}}
 	default:
